@@ -238,6 +238,12 @@ class Topic(Entity):
             )
             delivery_events.append(delivery_event)
 
+        # Deliveries are handed to the engine here: stamp them with the time of the
+        # hand-over (the per-subscriber latencies above have already elapsed).
+        if self._clock:
+            emit_time = self._clock.now
+            for delivery_event in delivery_events:
+                delivery_event.time = emit_time
         return delivery_events
 
     def publish_sync(self, message: Event) -> list[Event]:
